@@ -173,11 +173,11 @@ size_t depuncture(const std::array<int8_t, IN>& in,
     size_t index = 0;
     size_t pindex = 0;
     size_t bit_count = 0;
-    for (size_t i = 0; i != OUT && index < IN; ++i)
+    for (size_t i = 0; i != OUT; ++i)
     {
-        if (!p[pindex++])
+        if (!p[pindex++] || index == IN)
         {
-            out[i] = 0;
+            out[i] = 0;     // punctured, or past the end of the input: erased.
             bit_count++;
         }
         else
